@@ -307,6 +307,8 @@ def gen_cases(tier, seed):
     for f, kind, z in zo:
         cases.append(dict(kind="fitted", family=f, tz=z, variant="zone-object:" + kind, n=k, timeout=3000))
         k += 1
+    cases.append(dict(kind="fitted", family="hourly:nonsolar-supp-ghi:ghi", tz=zones[1], variant=None, n=k, timeout=3000))
+    k += 1
     for i, pr in enumerate(FT.HOURLY_ALTERNATIVES):
         cases.append(dict(kind="fitted", family="hourly:" + pr + (":ghi" if (i % 4 == 3 and not q) else ""), tz=zones[(i + 2) % len(zones)], variant=None, n=k, timeout=3000))
         k += 1
